@@ -243,7 +243,9 @@ func (i *IRCServer) Unmarshal(data []byte) (uint64, error) {
 		if s.Server {
 			i.serverSessions = append(i.serverSessions, newSession.Id.Id)
 		}
-		i.nicks[NickToLower(newSession.Nick)] = newSession
+		if newSession.Nick != "" {
+			i.nicks[NickToLower(newSession.Nick)] = newSession
+		}
 	}
 	for _, c := range snapshot.Channels {
 		nicks := make(map[lcNick]*[maxChanMemberStatus]bool, len(c.Nicks))
